@@ -36,6 +36,34 @@ CLAIMED = {
         "equality.",
         design_ref="DESIGN.md §4 C02",
     ),
+    "C04": dict(
+        technique=TECH + "field-set coherence of every Eq/Hash/Ord/CanonicalOrd impl, same-field pairing of "
+        "every comparison, case-fold primitive identity, label-wise hashing/comparison of name types, "
+        "canonical_cmp order vs canonical compose signature (sibling-signature engine)",
+        text="Decides structural necessary conditions of C04 universally over types: for every ADT, Hash "
+        "reads no field PartialEq ignores and orderings read the fields equality reads (derived and manual "
+        "impls alike, ~320 impl pairs); every comparison inside eq/cmp/canonical_cmp pairs the same field of "
+        "self and other (~690 sites); Label eq/cmp/hash and the canonical forms fold case with ASCII "
+        "lower-casing only; Hash/Eq/Ord of all name types are label-wise, never over raw octets; each record "
+        "type's canonical_cmp compares fields in canonical wire order with the comparator matching the "
+        "canonical encoding of the field; Record::canonical_cmp is class, owner, type, rdata. Transitivity "
+        "for all values and RFC 4034 6.1 itself are not decided.",
+        design_ref="DESIGN.md §4 C04",
+    ),
+    "C05": dict(
+        technique=TECH + "sibling codec signatures extracted from MIR success paths (resolved callees + field "
+        "identities): parse vs compose vs compressing compose vs canonical compose vs rdlen; RFC 4034 6.2 / "
+        "RFC 6840 5.1 lower-casing table; evaluated RTYPE constants vs IANA",
+        text="Decides structural necessary conditions of C05 for 36 record types: parse reads the fields "
+        "compose_rdata writes, in the same order with compatible codecs; the compressing path differs only in "
+        "name encoding; the canonical form differs from the plain form exactly by lower-casing the names the "
+        "RFCs list; rdlen's fixed part equals the sum of the fixed field widths and its variable part names "
+        "the same fields; each type tests and reports its own RTYPE, equal to the IANA number and pairwise "
+        "distinct; enum dispatchers call the same-named method per variant with an opaque fallback. Types "
+        "the extractor cannot model are listed as undecided in the evidence. Value equality after a "
+        "round-trip is not decided.",
+        design_ref="DESIGN.md §4 C05",
+    ),
     "C17": dict(
         technique=TECH + "finite decision-tree enumeration of Serial::partial_cmp against the RFC 1982 "
         "table, guard dominance for add, who-may-compare-raw audit of all serial/timestamp uses",
@@ -150,7 +178,7 @@ def main():
         print("MANIFEST.json written (jsonschema not available in this interpreter)")
 
 
-SOURCE_COMMITS = ["6d017b8", "5bee0e2", "d442263", "1972f03", "e564cac"]
+SOURCE_COMMITS = ["6d017b8", "5bee0e2", "d442263", "1972f03", "e564cac", "7c5564a", "eac9679", "3d7d923"]
 
 if __name__ == "__main__":
     main()
